@@ -40,11 +40,34 @@ def run_demo(demo):
     return r.returncode, (r.stdout + r.stderr)[-600:]
 
 
-def run_check(cid, tier):
+def _keys(stdout):
+    return sorted({l.split("key=", 1)[1].split(" ", 1)[0] for l in stdout.splitlines() if l.startswith("  key=")})
+
+
+def baseline_keys(cid, tier):
+    """Violation keys the check reports on the UNPATCHED scratch tree (non-empty only when that tree is an older commit
+    than the checks were written for); cached per (repo HEAD, check, tier, checks' git state)."""
+    head = sh("git -C %s rev-parse --short HEAD" % REPO).stdout.strip()
+    vhead = sh("git -C %s rev-parse --short HEAD" % VERIF).stdout.strip() + ("+" if sh("git -C %s status --porcelain mc" % VERIF).stdout.strip() else "")
+    cache = "/tmp/wt/baseline_%s_%s_%s_%s.json" % (head, cid, tier, vhead.replace("+", "d"))
+    if os.path.exists(cache) and not vhead.endswith("+"):
+        return json.load(open(cache))
+    r = sh("cd %s && VERIF_REPO=%s ./check %s --tier %s --no-evidence" % (VERIF, REPO, cid, tier), timeout=7200)
+    keys = _keys(r.stdout)
+    try:
+        json.dump(keys, open(cache, "w"))
+    except OSError:
+        pass
+    return keys
+
+
+def run_check(cid, tier, base=()):
     t = time.time()
     r = sh("cd %s && VERIF_REPO=%s ./check %s --tier %s --no-evidence" % (VERIF, REPO, cid, tier), timeout=7200)
     lines = [l for l in r.stdout.splitlines() if l.startswith(("VIOLATION", "  key=", "KNOWN-FINDING"))]
-    return {"check": cid, "tier": tier, "exit": r.returncode, "wall_s": round(time.time() - t, 1), "lines": [l[:300] for l in lines[:8]]}
+    new = [k for k in _keys(r.stdout) if k not in base]
+    shown = [l for l in lines if "key=" in l and any(("key=%s " % k) in l for k in new)]
+    return {"check": cid, "tier": tier, "exit": r.returncode, "wall_s": round(time.time() - t, 1), "new_keys": new, "baseline_keys": list(base), "lines": [l[:300] for l in (shown or lines)[:8]]}
 
 
 def main():
@@ -74,6 +97,7 @@ def main():
     try:
         rc0, out0 = run_demo(tmp_demo)
         report["demo_without_patch_exit"] = rc0
+        bases = {c: baseline_keys(c, a.tier) for c in a.checks.split(",") if c}
         ap_ = sh("git -C %s apply %s" % (REPO, patch))
         if ap_.returncode != 0:
             report["apply_error"] = ap_.stderr[-400:]
@@ -85,12 +109,12 @@ def main():
         rc1, out1 = run_demo(tmp_demo)
         report["demo_with_patch_exit"] = rc1
         report["demo_with_patch_tail"] = out1[-300:]
-        report["checks"] = [run_check(c, a.tier) for c in a.checks.split(",") if c]
+        report["checks"] = [run_check(c, a.tier, bases.get(c, ())) for c in a.checks.split(",") if c]
     finally:
         sh("git -C %s checkout -- ." % REPO)
         shutil.rmtree(os.path.join(REPO, "MUTATION"), ignore_errors=True)
     report["valid_seed"] = bool(report.get("applies") and report["repo_tests"]["passed"] >= 1008 and report["repo_tests"]["failed"] == 0 and report["demo_without_patch_exit"] == 0 and report["demo_with_patch_exit"] != 0)
-    report["caught_by"] = [c["check"] for c in report.get("checks", []) if c["exit"] == 1]
+    report["caught_by"] = [c["check"] for c in report.get("checks", []) if c["exit"] == 1 and c["new_keys"]]
     print(json.dumps(report, indent=1))
     if a.save and report["valid_seed"]:
         d = os.path.join(VERIF, "seeded", a.save)
